@@ -267,7 +267,10 @@ theorem jmAdvance_st (bfin jfin : End) (B J : List Item) (hd : HeadsDiffer B J)
   cases B with
   | nil =>
     cases J with
-    | nil => simp [jmAdvance, st, pend]
+    | nil =>
+      have hb : bfin = .done := hok.1 rfl
+      have hj : jfin = .done := hok.2 rfl
+      simp [jmAdvance, st, pend, hb, hj]
     | cons j js =>
       have hb : bfin = .done := hok.1 rfl
       subst hb
@@ -293,5 +296,718 @@ theorem jmAdvance_st (bfin jfin : End) (B J : List Item) (hd : HeadsDiffer B J)
         cases bs with
         | nil => cases bfin <;> simp [jmAdvance, st, pend, adv, hl]
         | cons x xs => simp [jmAdvance, st, pend, adv, hl]
+
+/-- the skip loop against the reference: joined entries equal to the current base key are dropped -/
+theorem jmSkip_spec (bfin jfin : End) (b : Item) (bs : List Item) : ∀ (js : List Item) (ji : Item),
+    (jmSkip b.1 jfin ji js = none ∧ joinRef bfin jfin (b :: bs) (ji :: js) = ([], .err)) ∨
+    (∃ J2 : List Item, jmSkip b.1 jfin ji js = some (J2.head?, ⟨J2.tail, jfin⟩) ∧
+      joinRef bfin jfin (b :: bs) (ji :: js) = joinRef bfin jfin (b :: bs) J2 ∧
+      HeadsDiffer (b :: bs) J2 ∧ (J2 = [] → jfin = .done) ∧ J2.length ≤ js.length + 1) := by
+  intro js
+  induction js with
+  | nil =>
+    intro ji
+    obtain ⟨jk, jv⟩ := ji
+    cases he : goEqual jk b.1 with
+    | none => left; exact ⟨by unfold jmSkip; simp [he], by simp [joinRef, he]⟩
+    | some e =>
+      cases e with
+      | false =>
+        right
+        refine ⟨[(jk, jv)], ?_, rfl, ?_, ?_, ?_⟩
+        · unfold jmSkip; simp [he]
+        · simpa [HeadsDiffer] using he
+        · intro h; cases h
+        · simp
+      | true =>
+        cases jfin with
+        | err => left; exact ⟨by unfold jmSkip; simp [he], by simp [joinRef, he]⟩
+        | done =>
+          right
+          refine ⟨[], ?_, ?_, ?_, ?_, ?_⟩
+          · unfold jmSkip; simp [he]
+          · simp [joinRef, he]
+          · simp [HeadsDiffer]
+          · intro _; rfl
+          · simp
+  | cons x xs ih =>
+    intro ji
+    obtain ⟨jk, jv⟩ := ji
+    cases he : goEqual jk b.1 with
+    | none => left; exact ⟨by unfold jmSkip; simp [he], by simp [joinRef, he]⟩
+    | some e =>
+      cases e with
+      | false =>
+        right
+        refine ⟨(jk, jv) :: x :: xs, ?_, rfl, ?_, ?_, ?_⟩
+        · unfold jmSkip; simp [he]
+        · simpa [HeadsDiffer] using he
+        · intro h; cases h
+        · simp
+      | true =>
+        have e1 : jmSkip b.1 jfin (jk, jv) (x :: xs) = jmSkip b.1 jfin x xs := by
+          rw [jmSkip.eq_1]; simp [he]
+        have e2 : joinRef bfin jfin (b :: bs) ((jk, jv) :: x :: xs) = joinRef bfin jfin (b :: bs) (x :: xs) := by
+          simp [joinRef, he]
+        rcases ih x with ⟨h1, h2⟩ | ⟨J2, h1, h2, h3, h4, h5⟩
+        · left; rw [e1, e2]; exact ⟨h1, h2⟩
+        · right
+          refine ⟨J2, ?_, ?_, h3, h4, ?_⟩
+          · rw [e1]; exact h1
+          · rw [e2]; exact h2
+          · simp at h5 ⊢; omega
+
+/-- second half of `Next` (skip loop, then `iterator()` picks the current item) -/
+def jmEmit (s1 : JM) : Step JM :=
+  match s1.bcur, s1.jcur with
+  | some bi, some ji =>
+    match jmSkip bi.1 s1.j.fin ji s1.j.rest with
+    | none => .fail
+    | some (jc, j') =>
+      let s2 : JM := { s1 with j := j', jcur := jc }
+      match jc with
+      | some ji' => if (goLess ji'.1 bi.1).getD false then .yield ji' s2 else .yield bi s2
+      | none => .yield bi s2
+  | some bi, none => .yield bi s1
+  | none, some ji => .yield ji s1
+  | none, none => .stop
+
+theorem jmNext_eq (s : JM) : jmNext s = match jmAdvance s with
+    | none => .fail
+    | some s1 => jmEmit s1 := rfl
+
+theorem jmEmit_spec (bfin jfin : End) (B J : List Item) (hok : EndsOk bfin jfin B J) :
+    (jmEmit (st bfin jfin B J) = .fail ∧ joinRef bfin jfin B J = ([], .err)) ∨
+    (jmEmit (st bfin jfin B J) = .stop ∧ joinRef bfin jfin B J = ([], .done)) ∨
+    (∃ (it : Item) (J2 : List Item), jmEmit (st bfin jfin B J) = .yield it (st bfin jfin B J2) ∧
+      HeadsDiffer B J2 ∧ EndsOk bfin jfin B J2 ∧
+      joinRef bfin jfin B J = (it :: (joinRef bfin jfin (pend B J2).1 (pend B J2).2).1,
+        (joinRef bfin jfin (pend B J2).1 (pend B J2).2).2) ∧
+      (pend B J2).1.length + (pend B J2).2.length + 1 ≤ B.length + J.length) := by
+  cases B with
+  | nil =>
+    cases J with
+    | nil =>
+      right; left
+      have hb : bfin = .done := hok.1 rfl
+      have hj : jfin = .done := hok.2 rfl
+      subst hb; subst hj
+      simp [jmEmit, st, joinRef]
+    | cons j js =>
+      right; right
+      have hb : bfin = .done := hok.1 rfl
+      subst hb
+      refine ⟨j, j :: js, ?_, trivial, hok, ?_, ?_⟩
+      · simp [jmEmit, st]
+      · simp [joinRef, pend]
+      · simp [pend]
+  | cons b bs =>
+    cases J with
+    | nil =>
+      right; right
+      have hj : jfin = .done := hok.2 rfl
+      subst hj
+      refine ⟨b, [], ?_, trivial, hok, ?_, ?_⟩
+      · simp [jmEmit, st]
+      · simp [joinRef, pend]
+      · simp [pend]
+    | cons j js =>
+      rcases jmSkip_spec bfin jfin b bs js j with ⟨h1, h2⟩ | ⟨J2, h1, h2, h3, h4, h5⟩
+      · left
+        exact ⟨by simp [jmEmit, st, h1], h2⟩
+      · right; right
+        cases J2 with
+        | nil =>
+          have hj : jfin = .done := h4 rfl
+          subst hj
+          refine ⟨b, [], ?_, trivial, ⟨fun h => (by cases h), fun _ => rfl⟩, ?_, ?_⟩
+          · simp [jmEmit, st, h1]
+          · rw [h2]; simp [joinRef, pend]
+          · simp [pend]
+        | cons j2 js2 =>
+          obtain ⟨l, hl⟩ := some_false_ne_none_less h3
+          have hok2 : EndsOk bfin jfin (b :: bs) (j2 :: js2) :=
+            ⟨fun h => (by cases h), fun h => (by cases h)⟩
+          cases l with
+          | true =>
+            refine ⟨j2, j2 :: js2, ?_, h3, hok2, ?_, ?_⟩
+            · simp [jmEmit, st, h1, hl]
+            · rw [h2]
+              have h3' : goEqual j2.1 b.1 = some false := h3
+              simp [joinRef, pend, hl, h3']
+            · simp [pend, hl] at h5 ⊢; omega
+          | false =>
+            refine ⟨b, j2 :: js2, ?_, h3, hok2, ?_, ?_⟩
+            · simp [jmEmit, st, h1, hl]
+            · rw [h2]
+              have h3' : goEqual j2.1 b.1 = some false := h3
+              simp [joinRef, pend, hl, h3']
+            · simp [pend, hl] at h5 ⊢; omega
+
+/-- started states: draining continues with the reference on what is pending -/
+theorem drain_jm_started (bfin jfin : End) : ∀ (n : Nat) (B J : List Item) (f : Nat),
+    HeadsDiffer B J → EndsOk bfin jfin B J →
+    (pend B J).1.length + (pend B J).2.length = n → n < f →
+    drain jmNext f (st bfin jfin B J) = joinRef bfin jfin (pend B J).1 (pend B J).2 := by
+  intro n
+  induction n using Nat.strongRecOn with
+  | _ n ih =>
+    intro B J f hd hok hn hf
+    cases f with
+    | zero => omega
+    | succ f =>
+      have hadv := jmAdvance_st bfin jfin B J hd hok
+      by_cases hp : EndsOk bfin jfin (pend B J).1 (pend B J).2
+      · have ha := hadv.1 hp
+        rcases jmEmit_spec bfin jfin (pend B J).1 (pend B J).2 hp with ⟨h1, h2⟩ | ⟨h1, h2⟩ |
+          ⟨it, J2, h1, h2, h3, h4, h5⟩
+        · simp only [drain, jmNext_eq, ha, h1, h2]
+        · simp only [drain, jmNext_eq, ha, h1, h2]
+        · have := ih _ (by omega) (pend B J).1 J2 f h2 h3 rfl (by omega)
+          simp only [drain, jmNext_eq, ha, h1, this, h4]
+      · have ha := hadv.2 hp
+        simp only [drain, jmNext_eq, ha, joinRef_err_of_not_endsOk bfin jfin _ _ hp]
+
+/-- **join-missing**: the iterator, drained, is the three-way merge `joinRef` -/
+theorem drain_jm (bfin jfin : End) (B J : List Item) (f : Nat) (hf : B.length + J.length < f) :
+    drain jmNext f { started := false, b := ⟨B, bfin⟩, j := ⟨J, jfin⟩, bcur := none, jcur := none }
+      = joinRef bfin jfin B J := by
+  cases f with
+  | zero => omega
+  | succ f =>
+    by_cases hok : EndsOk bfin jfin B J
+    · have ha : jmAdvance { started := false, b := ⟨B, bfin⟩, j := ⟨J, jfin⟩, bcur := none, jcur := none }
+          = some (st bfin jfin B J) := by
+        have h1 : ¬ (B = [] ∧ bfin = .err) := by
+          intro ⟨h, h'⟩; have := hok.1 h; rw [this] at h'; cases h'
+        have h2 : ¬ (J = [] ∧ jfin = .err) := by
+          intro ⟨h, h'⟩; have := hok.2 h; rw [this] at h'; cases h'
+        simp [jmAdvance, adv_eq, h1, h2, st]
+      rcases jmEmit_spec bfin jfin B J hok with ⟨h1, h2⟩ | ⟨h1, h2⟩ | ⟨it, J2, h1, h2, h3, h4, h5⟩
+      · simp only [drain, jmNext_eq, ha, h1, h2]
+      · simp only [drain, jmNext_eq, ha, h1, h2]
+      · have := drain_jm_started bfin jfin _ B J2 f h2 h3 rfl (by omega)
+        simp only [drain, jmNext_eq, ha, h1, this, h4]
+    · have ha : jmAdvance { started := false, b := ⟨B, bfin⟩, j := ⟨J, jfin⟩, bcur := none, jcur := none }
+          = none := by
+        unfold EndsOk at hok
+        simp only [jmAdvance, adv_eq]
+        by_cases h1 : B = [] ∧ bfin = .err
+        · simp [h1]
+        · by_cases h2 : J = [] ∧ jfin = .err
+          · simp [h1, h2]
+          · exfalso; apply hok
+            constructor
+            · intro hB; cases bfin with
+              | done => rfl
+              | err => exact absurd ⟨hB, rfl⟩ h1
+            · intro hJ; cases jfin with
+              | done => rfl
+              | err => exact absurd ⟨hJ, rfl⟩ h2
+      simp only [drain, jmNext_eq, ha, joinRef_err_of_not_endsOk bfin jfin _ _ hok]
+
+/-! ### the counting functions (Go `map[interface{}]int` as an association list) -/
+
+theorem wrap64_wrap64_add (a d : Int) : wrap64 (wrap64 a + d) = wrap64 (a + d) := by
+  unfold wrap64; exact Int.bmod_add_bmod
+
+theorem lookup_bump (k k' : Val) (d : Int) : ∀ acc : List (Val × Int),
+    lookup k (bump k' d acc) =
+      if k' = k then some (match lookup k acc with
+        | some c => wrap64 (c + d)
+        | none => wrap64 d)
+      else lookup k acc := by
+  intro acc
+  induction acc with
+  | nil => by_cases h : k' = k <;> simp [bump, lookup, h]
+  | cons hd tl ih =>
+    obtain ⟨k2, c⟩ := hd
+    by_cases h2 : k2 = k'
+    · subst h2
+      by_cases h : k2 = k <;> simp [bump, lookup, h]
+    · by_cases h : k' = k
+      · subst h
+        simp only [bump, h2, if_false, lookup, ih, if_true]
+      · simp only [bump, h2, if_false, lookup, ih, h]
+
+theorem keys_bump (k' : Val) (d : Int) : ∀ acc : List (Val × Int),
+    (bump k' d acc).map (·.1) = if k' ∈ acc.map (·.1) then acc.map (·.1) else acc.map (·.1) ++ [k'] := by
+  intro acc
+  induction acc with
+  | nil => simp [bump]
+  | cons hd tl ih =>
+    obtain ⟨k2, c⟩ := hd
+    by_cases h2 : k2 = k'
+    · subst h2; simp [bump]
+    · have h2' : ¬ k' = k2 := fun h => h2 h.symm
+      simp only [bump, h2, if_false, List.map_cons, ih, List.mem_cons, h2', false_or]
+      split <;> simp
+
+theorem nodup_bump (k' : Val) (d : Int) (acc : List (Val × Int)) (h : (acc.map (·.1)).Nodup) :
+    ((bump k' d acc).map (·.1)).Nodup := by
+  rw [keys_bump]
+  split
+  · exact h
+  · next hn =>
+    rw [List.nodup_append]
+    refine ⟨h, by simp, ?_⟩
+    intro a ha b hb
+    simp at hb; subst hb
+    intro e; subst e; exact hn ha
+
+theorem weightFor_append (keyOf : Item → Val) (delta : Item → Int) (k : Val) (it : Item) :
+    ∀ seen : List Item, weightFor keyOf delta k (seen ++ [it]) =
+      weightFor keyOf delta k seen + (if keyOf it = k then delta it else 0) := by
+  intro seen
+  induction seen with
+  | nil => by_cases h : keyOf it = k <;> simp [weightFor, h]
+  | cons x xs ih =>
+    by_cases h : keyOf x = k <;> simp [weightFor, h, ih] <;> omega
+
+/-- the association list after the items `seen` -/
+def Tallied (keyOf : Item → Val) (delta : Item → Int) (seen : List Item) (acc : List (Val × Int)) : Prop :=
+  (acc.map (·.1)).Nodup ∧
+  ∀ k, lookup k acc =
+    if k ∈ seen.map keyOf then some (wrap64 (weightFor keyOf delta k seen)) else none
+
+theorem tallied_step (keyOf : Item → Val) (delta : Item → Int) (seen : List Item) (acc : List (Val × Int))
+    (it : Item) (h : Tallied keyOf delta seen acc) :
+    Tallied keyOf delta (seen ++ [it]) (bump (keyOf it) (delta it) acc) := by
+  refine ⟨nodup_bump _ _ _ h.1, ?_⟩
+  intro k
+  rw [lookup_bump, h.2 k, weightFor_append]
+  by_cases hk : keyOf it = k
+  · subst hk
+    by_cases hm : keyOf it ∈ seen.map keyOf
+    · simp [hm, wrap64_wrap64_add]
+    · simp [hm]
+      have : weightFor keyOf delta (keyOf it) seen = 0 := by
+        clear h
+        induction seen with
+        | nil => rfl
+        | cons x xs ih =>
+          simp at hm
+          have hx : ¬ keyOf x = keyOf it := fun e => hm.1 e.symm
+          simp only [weightFor, hx, if_false]
+          exact ih (by simpa using hm.2)
+      simp [this]
+  · have hk' : ¬ k = keyOf it := fun e => hk e.symm
+    have hm : (k ∈ List.map keyOf (seen ++ [it])) ↔ (k ∈ List.map keyOf seen) := by
+      simp [hk']
+    simp only [hk, if_false, hm, Int.add_zero]
+
+theorem tallied_foldl (keyOf : Item → Val) (delta : Item → Int) : ∀ (items seen : List Item)
+    (acc : List (Val × Int)), Tallied keyOf delta seen acc →
+    Tallied keyOf delta (seen ++ items)
+      (items.foldl (fun acc it => bump (keyOf it) (delta it) acc) acc) := by
+  intro items
+  induction items with
+  | nil => intro seen acc h; simpa using h
+  | cons x xs ih =>
+    intro seen acc h
+    have := ih (seen ++ [x]) _ (tallied_step keyOf delta seen acc x h)
+    simpa [List.append_assoc] using this
+
+theorem tallied_nil (keyOf : Item → Val) (delta : Item → Int) : Tallied keyOf delta [] [] :=
+  ⟨by simp, by intro k; simp [lookup]⟩
+
+/-- the int value of an item (0 for anything else; only used when all values are ints) -/
+def intDelta : Item → Int
+  | (_, .int v) => v
+  | _ => 0
+
+theorem sumFor_eq_weightFor (k : Val) : ∀ items : List Item,
+    sumFor k items = weightFor (·.1) intDelta k items := by
+  intro items
+  induction items with
+  | nil => rfl
+  | cons x xs ih =>
+    obtain ⟨k', v⟩ := x
+    cases v <;> by_cases h : k' = k <;> simp [sumFor, weightFor, intDelta, h, ih]
+
+theorem sumByKey_go (fin : End) : ∀ (items : List Item) (acc : List (Val × Int)),
+    sumByKey.go fin acc items =
+      if (items.all fun it => match it.2 with | .int _ => true | _ => false) then
+        (match fin with
+          | .done => some (items.foldl (fun acc it => bump it.1 (intDelta it) acc) acc)
+          | .err => none)
+      else none := by
+  intro items
+  induction items with
+  | nil => intro acc; cases fin <;> simp [sumByKey.go]
+  | cons x xs ih =>
+    intro acc
+    obtain ⟨k, v⟩ := x
+    cases v with
+    | int i =>
+      simp only [sumByKey.go, ih, List.all_cons, Bool.true_and, List.foldl_cons]
+      rfl
+    | float c => simp [sumByKey.go]
+    | str s => simp [sumByKey.go]
+    | fid t ns v => simp [sumByKey.go]
+    | bool b => simp [sumByKey.go]
+
+/-! ### top -/
+
+/-- the value is an int or a float -/
+def Numeric (it : Item) : Prop := (valNum it.2).isSome = true
+
+/-- What `top` relies on from container/heap (its documented contract: Push adds, Pop removes and returns a
+minimum w.r.t. `Less`), stated relative to the multiset `elems` of what a heap holds. -/
+structure PQLaw (pq : PQ) where
+  elems : pq.Q → List Item
+  empty : elems pq.empty = []
+  push : ∀ q x, (elems (pq.push q x)).Perm (x :: elems q)
+  size : ∀ q, pq.size q = (elems q).length
+  pop_none : ∀ q, pq.pop q = none → elems q = []
+  pop_some : ∀ q x q', pq.pop q = some (x, q') →
+    (elems q).Perm (x :: elems q') ∧
+    ((∀ y ∈ elems q, Numeric y) → ∀ y ∈ elems q', ¬ itemLess y x = true)
+
+theorem itemLess_trans_le {a b c : Item} (ha : Numeric a) (hb : Numeric b) (hc : Numeric c)
+    (h1 : ¬ itemLess a b = true) (h2 : ¬ itemLess b c = true) : ¬ itemLess a c = true := by
+  unfold Numeric at *
+  unfold itemLess at *
+  cases hva : valNum a.2 with
+  | none => simp [hva] at ha
+  | some x =>
+    cases hvb : valNum b.2 with
+    | none => simp [hvb] at hb
+    | some y =>
+      cases hvc : valNum c.2 with
+      | none => simp [hvc] at hc
+      | some z =>
+        simp only [hva, hvb, hvc, decide_eq_true_eq] at *
+        omega
+
+theorem numeric_of_sameKind {first v : Val} (h : sameKind first v = true) (k : Val) : Numeric (k, v) := by
+  unfold Numeric
+  cases first <;> cases v <;> simp_all [sameKind, valNum]
+
+/-- loop invariant of `top`: `H` in the heap, `D` dropped so far, `P` processed -/
+structure TopInv (n : Int) (P H D : List Item) : Prop where
+  perm : (H ++ D).Perm P
+  low : ∀ d ∈ D, ∀ h ∈ H, ¬ itemLess h d = true
+  len : H.length = min n.toNat P.length
+  num : ∀ x ∈ P, Numeric x
+
+theorem topLoop_inv (pq : PQ) (law : PQLaw pq) (n : Int) (first : Val) :
+    ∀ (xs P : List Item) (q : pq.Q) (D : List Item) (q' : pq.Q),
+      TopInv n P (law.elems q) D → topLoop pq n first xs q = some q' →
+      ∃ D', TopInv n (P ++ xs) (law.elems q') D' := by
+  intro xs
+  induction xs with
+  | nil =>
+    intro P q D q' hinv h
+    simp only [topLoop, Option.some.injEq] at h
+    subst h
+    exact ⟨D, by simpa using hinv⟩
+  | cons x xs ih =>
+    intro P q D q' hinv h
+    obtain ⟨k, v⟩ := x
+    simp only [topLoop] at h
+    by_cases hk : sameKind first v = true
+    · simp only [hk, Bool.not_true, Bool.false_eq_true, if_false] at h
+      have hnum : Numeric (k, v) := numeric_of_sameKind hk k
+      have hpush := law.push q (k, v)
+      have hsz : pq.size (pq.push q (k, v)) = (law.elems q).length + 1 := by
+        rw [law.size, hpush.length_eq]; simp
+      have hnumP : ∀ y ∈ P ++ [(k, v)], Numeric y := by
+        intro y hy
+        rcases List.mem_append.mp hy with hy | hy
+        · exact hinv.num y hy
+        · simp at hy; subst hy; exact hnum
+      by_cases hgt : ((pq.size (pq.push q (k, v)) : Nat) : Int) > n
+      · -- over capacity: pop the minimum
+        simp only [hgt, if_true] at h
+        cases hp : pq.pop (pq.push q (k, v)) with
+        | none =>
+          have := law.pop_none _ hp
+          rw [this] at hpush
+          have := hpush.length_eq
+          simp at this
+        | some r =>
+          obtain ⟨m, q1⟩ := r
+          simp only [hp] at h
+          obtain ⟨hperm, hmin0⟩ := law.pop_some _ _ _ hp
+          have hxm : ((k, v) :: law.elems q).Perm (m :: law.elems q1) := hpush.symm.trans hperm
+          have hnumH1 : ∀ y ∈ law.elems (pq.push q (k, v)), Numeric y := by
+            intro y hy
+            rcases List.mem_cons.mp (hpush.mem_iff.mp hy) with e | e
+            · rw [e]; exact hnum
+            · exact hinv.num y (hinv.perm.mem_iff.mp (List.mem_append_left D e))
+          have hmin := hmin0 hnumH1
+          have hinv' : TopInv n (P ++ [(k, v)]) (law.elems q1) (m :: D) := by
+            refine ⟨?_, ?_, ?_, hnumP⟩
+            · -- multiset bookkeeping
+              have h1 : (law.elems q1 ++ m :: D).Perm (m :: law.elems q1 ++ D) := by
+                simpa using (List.perm_middle (a := m) (l₁ := law.elems q1) (l₂ := D))
+              have h2 : (m :: law.elems q1 ++ D).Perm (((k, v) :: law.elems q) ++ D) :=
+                List.Perm.append_right D hxm.symm
+              have h3 : (((k, v) :: law.elems q) ++ D).Perm ((k, v) :: P) := by
+                simpa using List.Perm.cons (k, v) hinv.perm
+              have h4 : ((k, v) :: P).Perm (P ++ [(k, v)]) := by
+                simpa using (List.perm_append_comm (l₁ := [(k, v)]) (l₂ := P))
+              exact h1.trans (h2.trans (h3.trans h4))
+            · intro d hd h hh
+              have hmem : h ∈ (k, v) :: law.elems q := hxm.symm.mem_iff.mp (List.mem_cons_of_mem m hh)
+              have hnumOf : ∀ y, y ∈ (k, v) :: law.elems q → Numeric y := by
+                intro y hy
+                rcases List.mem_cons.mp hy with hy | hy
+                · subst hy; exact hnum
+                · exact hinv.num y (hinv.perm.mem_iff.mp (List.mem_append_left D hy))
+              rcases List.mem_cons.mp hd with hdm | hdD
+              · subst hdm; exact hmin h hh
+              · rcases List.mem_cons.mp hmem with hkv | hH
+                · -- h is the new item
+                  by_cases hmx : m = (k, v)
+                  · -- the new item itself was popped: the heap is what it was
+                    rw [hmx] at hxm
+                    have hqq : (law.elems q).Perm (law.elems q1) := hxm.cons_inv
+                    exact hinv.low d hdD h (hqq.symm.mem_iff.mp hh)
+                  · have hmH : m ∈ law.elems q := by
+                      have : m ∈ (k, v) :: law.elems q := hxm.mem_iff.mpr (List.mem_cons_self ..)
+                      rcases List.mem_cons.mp this with e | e
+                      · exact absurd e hmx
+                      · exact e
+                    have h1 : ¬ itemLess m d = true := hinv.low d hdD m hmH
+                    have h2 : ¬ itemLess h m = true := hmin h hh
+                    have hnd : Numeric d := hinv.num d (hinv.perm.mem_iff.mp (List.mem_append_right _ hdD))
+                    exact itemLess_trans_le (hnumOf h hmem) (hnumOf m (List.mem_cons_of_mem _ hmH)) hnd h2 h1
+                · exact hinv.low d hdD h hH
+            · have hl := hxm.length_eq
+              have hl0 := hinv.len
+              simp only [List.length_cons, List.length_append, List.length_nil] at hl ⊢
+              rw [hsz] at hgt
+              omega
+          have := ih (P ++ [(k, v)]) q1 (m :: D) q' hinv' h
+          simpa [List.append_assoc] using this
+      · -- still room: nothing was ever dropped
+        simp only [hgt, if_false] at h
+        rw [hsz] at hgt
+        have hl0 := hinv.len
+        have hD : D = [] := by
+          have := hinv.perm.length_eq
+          simp only [List.length_append] at this
+          have : D.length = 0 := by omega
+          exact List.eq_nil_of_length_eq_zero this
+        subst hD
+        have hinv' : TopInv n (P ++ [(k, v)]) (law.elems (pq.push q (k, v))) [] := by
+          refine ⟨?_, by simp, ?_, hnumP⟩
+          · have h3 : ((k, v) :: law.elems q).Perm ((k, v) :: P) := by
+              simpa using List.Perm.cons (k, v) hinv.perm
+            have h4 : ((k, v) :: P).Perm (P ++ [(k, v)]) := by
+              simpa using (List.perm_append_comm (l₁ := [(k, v)]) (l₂ := P))
+            simpa using hpush.trans (h3.trans h4)
+          · rw [hpush.length_eq]
+            simp only [List.length_cons, List.length_append, List.length_nil]
+            omega
+        have := ih (P ++ [(k, v)]) _ [] q' hinv' h
+        simpa [List.append_assoc] using this
+    · simp [hk] at h
+
+/-- emptying the heap yields its contents greatest first -/
+theorem popAll_spec (pq : PQ) (law : PQLaw pq) : ∀ (f : Nat) (q : pq.Q) (acc : List Item),
+    (law.elems q).length ≤ f → (∀ y ∈ law.elems q, Numeric y) →
+    ∃ out, popAll pq f q acc = out ++ acc ∧ out.Perm (law.elems q) ∧
+      out.Pairwise (fun a b => ¬ itemLess a b = true) := by
+  intro f
+  induction f with
+  | zero =>
+    intro q acc h _
+    have : law.elems q = [] := List.eq_nil_of_length_eq_zero (by omega)
+    exact ⟨[], by simp [popAll], by simp [this], by simp⟩
+  | succ f ih =>
+    intro q acc h hnum
+    cases hp : pq.pop q with
+    | none =>
+      have := law.pop_none q hp
+      exact ⟨[], by simp [popAll, hp], by simp [this], by simp⟩
+    | some r =>
+      obtain ⟨x, q1⟩ := r
+      obtain ⟨hperm, hmin0⟩ := law.pop_some q x q1 hp
+      have hmin := hmin0 hnum
+      have hl := hperm.length_eq
+      simp only [List.length_cons] at hl
+      have hnum1 : ∀ y ∈ law.elems q1, Numeric y := fun y hy =>
+        hnum y (hperm.mem_iff.mpr (List.mem_cons_of_mem _ hy))
+      obtain ⟨out, h1, h2, h3⟩ := ih q1 (x :: acc) (by omega) hnum1
+      refine ⟨out ++ [x], by simp [popAll, hp, h1], ?_, ?_⟩
+      · have : (out ++ [x]).Perm (x :: out) := by
+          simpa using (List.perm_append_comm (l₁ := out) (l₂ := [x]))
+        exact this.trans ((List.Perm.cons x h2).trans hperm.symm)
+      · rw [List.pairwise_append]
+        refine ⟨h3, by simp, ?_⟩
+        intro a ha b hb
+        simp at hb; subst hb
+        exact hmin a (h2.mem_iff.mp ha)
+
+/-! a priority queue that keeps the law: an unsorted list whose `pop` extracts a minimum -/
+
+def extractMin : List Item → Option (Item × List Item)
+  | [] => none
+  | x :: xs =>
+    match extractMin xs with
+    | none => some (x, [])
+    | some (m, rest) => if itemLess m x then some (m, x :: rest) else some (x, xs)
+
+def listPQ : PQ :=
+  { Q := List Item, empty := [], push := fun q x => x :: q, pop := extractMin, size := List.length }
+
+theorem extractMin_spec : ∀ (l : List Item) (m : Item) (rest : List Item),
+    extractMin l = some (m, rest) →
+    l.Perm (m :: rest) ∧ ((∀ y ∈ l, Numeric y) → ∀ y ∈ rest, ¬ itemLess y m = true) := by
+  intro l
+  induction l with
+  | nil => intro m rest h; simp [extractMin] at h
+  | cons x xs ih =>
+    intro m rest h
+    simp only [extractMin] at h
+    cases hx : extractMin xs with
+    | none =>
+      have hnil : xs = [] := by
+        cases xs with
+        | nil => rfl
+        | cons y ys =>
+          simp only [extractMin] at hx
+          cases hy : extractMin ys with
+          | none => simp [hy] at hx
+          | some r => obtain ⟨a, b⟩ := r; simp only [hy] at hx; split at hx <;> cases hx
+      simp only [hx, Option.some.injEq, Prod.mk.injEq] at h
+      obtain ⟨h1, h2⟩ := h
+      subst h1; subst h2; subst hnil
+      exact ⟨List.Perm.refl _, by simp⟩
+    | some r =>
+      obtain ⟨m0, rest0⟩ := r
+      obtain ⟨hp, hmin⟩ := ih m0 rest0 hx
+      simp only [hx] at h
+      by_cases hl : itemLess m0 x = true
+      · simp only [hl, if_true, Option.some.injEq, Prod.mk.injEq] at h
+        obtain ⟨h1, h2⟩ := h
+        subst h1; subst h2
+        refine ⟨?_, ?_⟩
+        · exact (List.Perm.cons x hp).trans (List.Perm.swap ..)
+        · intro hnum y hy
+          have hnx : Numeric x := hnum x (List.mem_cons_self ..)
+          have hnm : Numeric m0 := hnum m0 (List.mem_cons_of_mem _ (hp.mem_iff.mpr (List.mem_cons_self ..)))
+          rcases List.mem_cons.mp hy with e | e
+          · rw [e]
+            unfold Numeric at hnx hnm
+            unfold itemLess at hl ⊢
+            cases hvx : valNum x.2 with
+            | none => simp [hvx] at hnx
+            | some a =>
+              cases hvm : valNum m0.2 with
+              | none => simp [hvm] at hnm
+              | some b => simp only [hvx, hvm, decide_eq_true_eq] at hl ⊢; omega
+          · exact hmin (fun z hz => hnum z (List.mem_cons_of_mem _ hz)) y e
+      · simp only [hl, Bool.false_eq_true, if_false, Option.some.injEq, Prod.mk.injEq] at h
+        obtain ⟨h1, h2⟩ := h
+        subst h1; subst h2
+        refine ⟨List.Perm.refl _, ?_⟩
+        intro hnum y hy
+        have hnx : Numeric x := hnum x (List.mem_cons_self ..)
+        have hnxs : ∀ z ∈ xs, Numeric z := fun z hz => hnum z (List.mem_cons_of_mem _ hz)
+        rcases List.mem_cons.mp (hp.mem_iff.mp hy) with e | e
+        · rw [e]; exact hl
+        · have h1 := hmin hnxs y e
+          exact itemLess_trans_le (hnxs y hy) (hnxs m0 (hp.mem_iff.mpr (List.mem_cons_self ..))) hnx h1 hl
+
+def listPQLaw : PQLaw listPQ where
+  elems := fun q => q
+  empty := rfl
+  push := fun _ _ => List.Perm.refl _
+  size := fun _ => rfl
+  pop_none := by
+    intro q h
+    cases q with
+    | nil => rfl
+    | cons x xs =>
+      simp only [listPQ, extractMin] at h
+      cases hx : extractMin xs with
+      | none => simp [hx] at h
+      | some r => obtain ⟨a, b⟩ := r; simp only [hx] at h; split at h <;> cases h
+  pop_some := fun q x q' h => extractMin_spec q x q' h
+
+/-! ### sort.Search and CollectionFeature.FindValue -/
+
+/-- `sort.Search` on a monotone predicate returns the first index where it holds (or `n`) -/
+theorem searchGo_spec (f : Nat → Bool) (n : Nat)
+    (mono : ∀ x y, x ≤ y → y < n → f x = true → f y = true) :
+    ∀ (fuel i j : Nat), i ≤ j → j ≤ n → j - i < fuel →
+      (∀ x, x < i → f x = false) → (∀ x, j ≤ x → x < n → f x = true) →
+      (∀ x, x < searchGo f fuel i j → f x = false) ∧
+      (∀ x, searchGo f fuel i j ≤ x → x < n → f x = true) ∧ searchGo f fuel i j ≤ n := by
+  intro fuel
+  induction fuel with
+  | zero => intro i j _ _ h; omega
+  | succ fuel ih =>
+    intro i j hij hjn hfuel hlo hhi
+    by_cases hlt : i < j
+    · have hh1 : i ≤ (i + j) / 2 := by omega
+      have hh2 : (i + j) / 2 < j := by omega
+      cases hf : f ((i + j) / 2) with
+      | false =>
+        have := ih ((i + j) / 2 + 1) j (by omega) hjn (by omega)
+          (by
+            intro x hx
+            by_cases hxi : x < i
+            · exact hlo x hxi
+            · cases hfx : f x with
+              | false => rfl
+              | true =>
+                have := mono x ((i + j) / 2) (by omega) (by omega) hfx
+                rw [hf] at this; cases this)
+          hhi
+        simpa [searchGo, hlt, hf] using this
+      | true =>
+        have := ih i ((i + j) / 2) hh1 (by omega) (by omega) hlo
+          (by
+            intro x hx hxn
+            exact mono ((i + j) / 2) x hx hxn hf)
+        simpa [searchGo, hlt, hf] using this
+    · have hij' : i = j := by omega
+      subst hij'
+      simp only [searchGo, hlt, if_false]
+      exact ⟨hlo, hhi, hjn⟩
+
+/-- what FindValue needs from the keys and the probe, in terms of the two observations the code makes:
+`L i` = `!(Keys[i] < key)` and `E i` = `Keys[i] == key` (errors read as false) -/
+structure SearchOk (keys : Array Val) (key : Val) : Prop where
+  mono : ∀ i j, i ≤ j → j < keys.size → notLess keys key i = true → notLess keys key j = true
+  eq_ge : ∀ i, eqAt keys key i = true → notLess keys key i = true
+  gt_stays : ∀ i j, i ≤ j → j < keys.size → notLess keys key i = true → eqAt keys key i = false →
+    eqAt keys key j = false
+  between : ∀ i x j, i ≤ x → x ≤ j → j < keys.size → eqAt keys key i = true → eqAt keys key j = true →
+    eqAt keys key x = true
+
+theorem sortSearch_spec (keys : Array Val) (key : Val) (h : SearchOk keys key) :
+    (∀ x, x < sortSearch keys.size (notLess keys key) → notLess keys key x = false) ∧
+    (∀ x, sortSearch keys.size (notLess keys key) ≤ x → x < keys.size → notLess keys key x = true) ∧
+    sortSearch keys.size (notLess keys key) ≤ keys.size := by
+  unfold sortSearch
+  exact searchGo_spec (notLess keys key) keys.size h.mono (keys.size + 1) 0 keys.size
+    (Nat.zero_le _) (Nat.le_refl _) (by omega) (by intro x hx; omega) (by intro x hx hxn; omega)
+
+theorem find?_range_first (p : Nat → Bool) (n i : Nat) (hi : i < n) (hp : p i = true)
+    (hlt : ∀ x, x < i → p x = false) : (List.range n).find? p = some i := by
+  rw [List.find?_eq_some_iff_append]
+  refine ⟨hp, List.range i, (List.range' (i + 1) (n - i - 1)), ?_, ?_⟩
+  · have : List.range n = List.range' 0 n := List.range_eq_range' ..
+    rw [this, List.range_eq_range']
+    have e : n = i + (1 + (n - i - 1)) := by omega
+    conv => lhs; rw [e]
+    rw [← List.range'_append_1, ← List.range'_append_1]
+    simp
+  · intro a ha
+    have : a < i := by simpa using ha
+    simp [hlt a this]
+
+theorem find?_range_none (p : Nat → Bool) (n : Nat) (h : ∀ x, x < n → p x = false) :
+    (List.range n).find? p = none := by
+  rw [List.find?_eq_none]
+  intro x hx
+  have : x < n := by simpa using hx
+  simp [h x this]
 
 end B6.Lemmas.Collections
